@@ -1,6 +1,7 @@
 package core
 
 import (
+	"sort"
 	"os"
 	"go/constant"
 	"fmt"
@@ -231,6 +232,7 @@ func (p *Program) Inlined(fd *FuncDecl) *FuncDecl {
 		}
 		return true
 	})
+	st.desugarDefers(body)
 	st.block(body, 0)
 	st.normalise(body)
 	if !st.changed {
@@ -455,6 +457,222 @@ func (st *inlineState) stmts(list []ast.Stmt, depth int) []ast.Stmt {
 		out = append(out, st.stmt(s, depth)...)
 	}
 	return out
+}
+
+// desugarDefers: in a function whose results are all named (or that has none),
+// a `defer f(args)` standing directly in the function body, with a receiver and
+// arguments that are the same at the time of the return as at the time of the
+// defer (plain variables never assigned afterwards, their addresses, constants),
+// is the call made at every later return: `return X` becomes
+// `res = X; f(args); return res`. (What the deferred call does when the
+// function panics is outside this view.) Nothing is done when a defer stands
+// anywhere else — in a branch, a loop, a closure.
+func (st *inlineState) desugarDefers(body *ast.BlockStmt) {
+	sig := st.root.Obj.Type().(*types.Signature)
+	var results []*types.Var
+	for i := 0; i < sig.Results().Len(); i++ {
+		r := sig.Results().At(i)
+		if r.Name() == "" || r.Name() == "_" {
+			return
+		}
+		results = append(results, r)
+	}
+	// every defer must be a direct child of the body
+	top := map[*ast.DeferStmt]int{}
+	for i, s := range body.List {
+		if d, ok := s.(*ast.DeferStmt); ok {
+			top[d] = i
+		}
+	}
+	n := 0
+	ast.Inspect(body, func(m ast.Node) bool {
+		if _, isLit := m.(*ast.FuncLit); isLit {
+			return false
+		}
+		if d, ok := m.(*ast.DeferStmt); ok {
+			n++
+			if _, isTop := top[d]; !isTop {
+				n = -1000
+			}
+		}
+		return true
+	})
+	if n <= 0 || n != len(top) {
+		return
+	}
+	assignedAfter := func(v *types.Var, from token.Pos) bool {
+		found := false
+		ast.Inspect(body, func(m ast.Node) bool {
+			switch x := m.(type) {
+			case *ast.AssignStmt:
+				if x.Pos() > from {
+					for _, l := range x.Lhs {
+						if VarOf(st.info, l) == v {
+							found = true
+						}
+					}
+				}
+			case *ast.IncDecStmt:
+				if x.Pos() > from && VarOf(st.info, x.X) == v {
+					found = true
+				}
+			}
+			return !found
+		})
+		return found
+	}
+	stable := func(e ast.Expr, from token.Pos, addrOK bool) bool {
+		e = ast.Unparen(e)
+		if tv, ok := st.info.Types[e]; ok && (tv.Value != nil || tv.IsNil()) {
+			return true
+		}
+		if u, ok := e.(*ast.UnaryExpr); ok && u.Op == token.AND && addrOK {
+			_, isId := ast.Unparen(u.X).(*ast.Ident)
+			return isId && VarOf(st.info, u.X) != nil
+		}
+		if id, ok := e.(*ast.Ident); ok {
+			v := VarOf(st.info, id)
+			return v != nil && !v.IsField() && !assignedAfter(v, from)
+		}
+		return false
+	}
+	for d := range top {
+		if _, isLit := ast.Unparen(d.Call.Fun).(*ast.FuncLit); isLit {
+			if len(d.Call.Args) != 0 {
+				return
+			}
+			usesRecover := false
+			ast.Inspect(d.Call.Fun, func(m ast.Node) bool {
+				if id, ok := m.(*ast.Ident); ok && id.Name == "recover" {
+					usesRecover = true
+				}
+				return true
+			})
+			if usesRecover {
+				return
+			}
+			continue
+		}
+		if re := RecvExpr(d.Call); re != nil && Callee(st.info, d.Call) != nil && Callee(st.info, d.Call).Type().(*types.Signature).Recv() != nil {
+			if !stable(re, d.Pos(), false) {
+				return
+			}
+		}
+		for _, a := range d.Call.Args {
+			if !stable(a, d.Pos(), true) {
+				return
+			}
+		}
+	}
+	// rewrite the returns after each defer
+	var defers []*ast.DeferStmt
+	for d := range top {
+		defers = append(defers, d)
+	}
+	sort.Slice(defers, func(i, j int) bool { return top[defers[i]] < top[defers[j]] })
+	var rewrite func(list []ast.Stmt, active []*ast.DeferStmt) []ast.Stmt
+	rewriteStmt := func(s ast.Stmt, active []*ast.DeferStmt) ast.Stmt { return s }
+	var inStmt func(s ast.Stmt, active []*ast.DeferStmt)
+	mkReturn := func(r *ast.ReturnStmt, active []*ast.DeferStmt) []ast.Stmt {
+		pos := r.Pos()
+		var out []ast.Stmt
+		if len(r.Results) > 0 {
+			var lhs []ast.Expr
+			for _, v := range results {
+				lhs = append(lhs, st.useIdent(v, pos))
+			}
+			if len(r.Results) == len(results) || len(r.Results) == 1 {
+				out = append(out, &ast.AssignStmt{Lhs: lhs, TokPos: pos, Tok: token.ASSIGN, Rhs: r.Results})
+			} else {
+				return []ast.Stmt{r}
+			}
+		}
+		for i := len(active) - 1; i >= 0; i-- {
+			call := st.cloneNode(active[i].Call).(*ast.CallExpr)
+			out = append(out, &ast.ExprStmt{X: call})
+		}
+		var res []ast.Expr
+		for _, v := range results {
+			res = append(res, st.useIdent(v, pos))
+		}
+		out = append(out, &ast.ReturnStmt{Return: pos, Results: res})
+		return out
+	}
+	rewrite = func(list []ast.Stmt, active []*ast.DeferStmt) []ast.Stmt {
+		var out []ast.Stmt
+		for _, s := range list {
+			if r, ok := s.(*ast.ReturnStmt); ok && len(active) > 0 {
+				out = append(out, mkReturn(r, active)...)
+				continue
+			}
+			inStmt(s, active)
+			out = append(out, rewriteStmt(s, active))
+		}
+		return out
+	}
+	inStmt = func(s ast.Stmt, active []*ast.DeferStmt) {
+		if len(active) == 0 {
+			return
+		}
+		switch x := s.(type) {
+		case *ast.BlockStmt:
+			x.List = rewrite(x.List, active)
+		case *ast.IfStmt:
+			x.Body.List = rewrite(x.Body.List, active)
+			switch e := x.Else.(type) {
+			case *ast.BlockStmt:
+				e.List = rewrite(e.List, active)
+			case *ast.IfStmt:
+				inStmt(e, active)
+			}
+		case *ast.ForStmt:
+			x.Body.List = rewrite(x.Body.List, active)
+		case *ast.RangeStmt:
+			x.Body.List = rewrite(x.Body.List, active)
+		case *ast.SwitchStmt:
+			for _, cc := range x.Body.List {
+				c := cc.(*ast.CaseClause)
+				c.Body = rewrite(c.Body, active)
+			}
+		case *ast.TypeSwitchStmt:
+			for _, cc := range x.Body.List {
+				c := cc.(*ast.CaseClause)
+				c.Body = rewrite(c.Body, active)
+			}
+		case *ast.SelectStmt:
+			for _, cc := range x.Body.List {
+				c := cc.(*ast.CommClause)
+				c.Body = rewrite(c.Body, active)
+			}
+		case *ast.LabeledStmt:
+			inStmt(x.Stmt, active)
+		}
+	}
+	var out []ast.Stmt
+	var active []*ast.DeferStmt
+	endsInReturn := false
+	for _, s := range body.List {
+		if d, ok := s.(*ast.DeferStmt); ok {
+			active = append(active, d)
+			continue // the statement itself disappears
+		}
+		if r, ok := s.(*ast.ReturnStmt); ok && len(active) > 0 {
+			out = append(out, mkReturn(r, active)...)
+			endsInReturn = true
+			continue
+		}
+		inStmt(s, active)
+		out = append(out, s)
+		_, endsInReturn = s.(*ast.ReturnStmt)
+	}
+	// falling off the end of a function without results
+	if len(results) == 0 && !endsInReturn && len(active) > 0 {
+		for i := len(active) - 1; i >= 0; i-- {
+			out = append(out, &ast.ExprStmt{X: st.cloneNode(active[i].Call).(*ast.CallExpr)})
+		}
+	}
+	body.List = out
+	st.changed = true
 }
 
 // callee returns the declaration of an inlinable callee of call.
@@ -808,7 +1026,10 @@ func (st *inlineState) substituteExpr(pv *types.Var, arg ast.Expr, body *ast.Blo
 		return
 	}
 	if _, isSel := inner.(*ast.SelectorExpr); !isSel {
-		return
+		// the address of a plain local (&err): `*p` in the callee is the local itself
+		if _, isAddr := e.(*ast.UnaryExpr); !isAddr {
+			return
+		}
 	}
 	if st.paramWritten(pv, body) {
 		return
@@ -1496,6 +1717,33 @@ func (st *inlineState) stmt(s ast.Stmt, depth int) []ast.Stmt {
 				x.Cond = be.X
 				x.Body = &ast.BlockStmt{Lbrace: x.Body.Lbrace, List: []ast.Stmt{inner}, Rbrace: x.Body.Rbrace}
 				st.changed = true
+			}
+		}
+		// `if L || R { …exit }` (no else, no init; the body ends by leaving: continue, break,
+		// return) where R calls an inlinable helper: `if L { …exit }; if R { …exit }`
+		if be, ok := ast.Unparen(x.Cond).(*ast.BinaryExpr); ok && be.Op == token.LOR && x.Else == nil && x.Init == nil && len(x.Body.List) > 0 {
+			leaves := false
+			switch l := x.Body.List[len(x.Body.List)-1].(type) {
+			case *ast.ReturnStmt:
+				leaves = true
+			case *ast.BranchStmt:
+				leaves = l.Tok == token.CONTINUE || l.Tok == token.BREAK
+			}
+			inl := false
+			ast.Inspect(be.Y, func(n ast.Node) bool {
+				if _, isLit := n.(*ast.FuncLit); isLit {
+					return false
+				}
+				if call, ok := n.(*ast.CallExpr); ok && st.callee(call, depth) != nil {
+					inl = true
+				}
+				return true
+			})
+			if leaves && inl {
+				second := &ast.IfStmt{If: be.Y.Pos(), Cond: be.Y, Body: st.cloneNode(x.Body).(*ast.BlockStmt)}
+				x.Cond = be.X
+				st.changed = true
+				return append(st.stmt(x, depth), st.stmt(second, depth)...)
 			}
 		}
 		var pre []ast.Stmt
